@@ -150,8 +150,10 @@ def actual_values(date, T, N, lat, lon, alt):
     return times, TR.body_altitude("sun", times, lat, lon, alt), TR.body_altitude("moon", times, lat, lon, alt), TR.moon_phase(times)
 
 
-def judge_darksky(q):
-    """q: dict(date, T, N, lat, lon, alt, pivot (instant index), assign (3 bools), delta)"""
+def judge_darksky(q, single=True):
+    """q: dict(date, T, N, lat, lon, alt, pivot (instant index), assign (3 bools), delta); single: also evaluate a few
+    instants one at a time (left out in the multi-detector sequences, whose point is that nothing else is evaluated
+    between two detectors)"""
     from nuspacesim.simulation.geometry.too import ToOEvent
 
     times, sun, moon, phase = actual_values(q["date"], q["T"], q["N"], q["lat"], q["lon"], q["alt"])
@@ -177,7 +179,7 @@ def judge_darksky(q):
         for i in np.where(bad)[0][:2]:
             out.append(("darksky_truth_table", f"instant {i}: sun={bool(ref_s[i])} moon_alt={bool(ref_m[i])} phase={bool(ref_p[i])} -> {bool(ref[i])}", bool(got[i])))
         # element-wise: batch == single-instant evaluation (the cut is evaluated at each event's own time)
-        idxs = sorted(set([0, k, len(times) - 1, len(times) // 2]))
+        idxs = sorted(set([0, k, len(times) - 1, len(times) // 2])) if single else []
         for i in idxs:
             one = bool(np.asarray(ev.sun_moon_cut(times[i])))
             if one != bool(got[i]):
@@ -185,6 +187,21 @@ def judge_darksky(q):
                 break
     sig = (bool(ref[k]), tuple(q["assign"]), int(ref.sum()) not in (0, len(ref)))
     return out, sig
+
+
+DETECTORS = [(0.0, 0.0, 525.0), (math.pi / 4, math.radians(100), 33.0), (-math.pi / 3, math.radians(-120), 400.0)]
+
+
+def judge_darksky_sequence(order):
+    """several detectors at different places evaluated one after another IN ONE PROCESS on bit-identical instants: each
+    gets the Sun and Moon as seen from ITS position (anything memoised on the instants alone shows here)"""
+    out = []
+    for step, di in enumerate(order):
+        la, lo, alt = DETECTORS[di]
+        for date, T, N in (("2022-11-24T00:00:00", 86400.0, 24), ("2022-06-14T11:52:00", 86400.0, 12)):
+            v, _ = judge_darksky(dict(date=date, T=T, N=N, lat=la, lon=lo, alt=alt, pivot=N // 2, assign=[True, True, True], delta=0.2), single=False)
+            out += [(c, f"detector {di} (step {step} of {list(order)}), {date}: {e}", o) for c, e, o in v]
+    return out
 
 
 def judge_cut_effect(p, sm):
@@ -359,6 +376,14 @@ def run(ctx):
         for c_, e, o in v:
             ctx.violation(c_, {"kind": "geo", "p": q}, e, o)
     ctx.cov["limb_placed_on_actual_beta_cases"] = len(placed)
+    # the smallest limb angle the configuration allows (exactly 0: the limit is the horizon itself, nothing is kept) over a
+    # grid of detector altitudes (the horizon formula rounds differently from altitude to altitude)
+    zero_limb = [dict(ra=1.0, dec=-0.3, date="2022-06-14T11:52:00", T=86400.0, N=12, lat=0.1, lon=0.2, alt=float(a), limb=0.0) for a in np.arange(33.0, 528.0, 1.5 if tier == "quick" else 0.5)]
+    for q, (v, info) in zip(zero_limb, par.pmap(judge_geometry, zero_limb)):
+        ctx.tick(q["N"], ("geo_zero_limb", info.get("n_kept", 0) > 0, info.get("n_below", 0) > 0))
+        for c_, e, o in v:
+            ctx.violation(c_, {"kind": "geo", "p": q}, e, o)
+    ctx.cov["zero_limb_altitudes"] = len(zero_limb)
     ctx.sample({"kind": "geometry", "p": ps[len(ps) // 3]})
     # dark-sky truth table
     dates = ["2022-06-14T11:52:00", "2022-05-30T11:30:00"] + (["2022-03-21T00:00:00", "2022-12-21T18:00:00"] if tier == "thorough" else [])
@@ -389,6 +414,11 @@ def run(ctx):
             for c, e, o in v:
                 ctx.violation(c, {"kind": "effect", "p": p, "sm": sm}, e, o)
     ctx.cov["cut_effect_cases"] = nce
+    orders = list(itertools.permutations(range(len(DETECTORS))))
+    for order, v in zip(orders, par.pmap(judge_darksky_sequence, orders)):
+        ctx.tick(2 * len(order), ("darksky_sequence",) + tuple(order))
+        for c, e, o in v[:2]:
+            ctx.violation(c, {"kind": "dkseq", "order": list(order)}, e, o)
     v, n = judge_cut_history()
     ctx.tick(n, ("cut_history", tuple(KEPT_INFO)))
     ctx.cov["cut_history_bytes_per_batch"] = list(KEPT_INFO)
@@ -408,6 +438,8 @@ def replay(case):
         return judge_geometry(case["p"])[0]
     if k == "dark":
         return judge_darksky(case["q"])[0]
+    if k == "dkseq":
+        return judge_darksky_sequence(tuple(case["order"]))
     if k == "cut_history":
         v, _ = judge_cut_history()
         return [(c, e, o) for c, seq, e, o in v if seq == case["seq"]]
